@@ -132,7 +132,7 @@ fn budget_for(profile: &str, thorough: bool) -> (u64, u64) {
         "C01" => 600,
         "C05" => 1000,
         "C04" | "C07" => 4000,
-        "C08" => 2500,
+        "C08" => 1500,
         "C09" => 2000,
         "C11" => 1500,
         "C17" => 20000,
@@ -181,6 +181,12 @@ fn run_profile_seed(profile: String, seed: u64, thorough: bool) -> RunOutcome {
                 ..Default::default()
             },
         };
+    }
+    if profile == "C08" && seed % 16 == 0 {
+        // one run in 16 is an exhaustive family: all pause sets inside one small block
+        if let Ok(Some(o)) = on_fresh_thread(move || run::run_c08_exhaustive(seed, thorough)) {
+            return o;
+        }
     }
     match on_fresh_thread(move || run::run_generated(&profile, seed, thorough)) {
         Ok(o) => o,
